@@ -25,6 +25,11 @@ StartSucceeds(B) == FailsAt(B) = 0
 AfterStart(B) ==
   IF StartSucceeds(B) THEN [B EXCEPT !.bound = @ \cup PortSet(B), !.running = TRUE]
   ELSE [B EXCEPT !.closing = @ \cup {B.ports[j] : j \in 1..(FailsAt(B) - 1)}]
+\* start() cancelled (task cancellation, a timeout around it) after k binds: what it opened stays open until stop() - the
+\* clean-up of a failed start does not run for a cancellation - and the flag is untouched
+AfterCancelledStart(B, k) ==
+  LET n == IF FailsAt(B) = 0 THEN k ELSE IF k < FailsAt(B) THEN k ELSE FailsAt(B) - 1 IN
+  [B EXCEPT !.bound = @ \cup {B.ports[j] : j \in 1..(IF n > Len(B.ports) THEN Len(B.ports) ELSE n)}]
 AfterStop(B) == [B EXCEPT !.closing = @ \cup B.bound, !.bound = {}, !.running = FALSE]
 AfterCycle(B) == [B EXCEPT !.closing = {}]
 Listening(B) == B.bound
